@@ -417,12 +417,16 @@ def concurrent_round(ctx, idx, big):
         go = os.path.join(scratch, "go")
         procs = []
         flags_used = []
+        # in a third of the rounds one loader is killed at a random step boundary while the others keep going
+        victim = int(rng.integers(0, k)) if rng.integers(0, 3) == 0 else None
+        victim_at = int(rng.integers(1, 330))
         for i in range(k):
             force = bool(rng.integers(0, 3) == 0)
             flags_used.append(force)
             spec = {"home": home, "audit_log": log,
                     "yield": {"seed": int(rng.integers(0, 2 ** 31)), "p": float(rng.choice([0.02, 0.1, 0.3])),
                               "max_s": float(rng.choice([0.0005, 0.002, 0.01]))},
+                    **({"kill": {"events": "line", "at": victim_at, "step": 2}} if i == victim else {}),
                     "steps": [{"op": "net", "default": "good"},
                               {"op": "barrier", "ready": os.path.join(scratch, "ready-%d" % i), "go": go, "timeout": 120},
                               {"op": "remote", "url": url, "dataset_filename": "entry", "folder": "fold", "gz": gz,
@@ -452,6 +456,9 @@ def concurrent_round(ctx, idx, big):
         ctx.count("concurrent:loaders=%d" % k)
         want = _ds.expected_desc(url, rows)
         for i, (o, se, rc) in enumerate(outs):
+            if o is None and i == victim and rc in (-9, 137):
+                ctx.count("concurrent:victim_killed")
+                continue
             if o is None:
                 ctx.violation("concurrent_loader_crashed", cid, {"loader": i, "rc": rc, "stderr": se[-800:]})
                 return
@@ -467,7 +474,7 @@ def concurrent_round(ctx, idx, big):
         if state != "complete":
             ctx.violation("final_cache_entry_not_complete", cid, {"state": state})
             return
-        if left:
+        if left and victim is None:
             ctx.violation("temporary_directories_survive_concurrent_loads", cid, {"left": left})
             return
         # interleaving signature from the recorded per-process histories (one monotonic clock for all processes)
